@@ -73,17 +73,71 @@ func c01Eval(root *inproc.Root, p Prog, st *pcStats) *pcFail {
 }
 
 func c01Spec(r *core.Run) sweepSpec {
+	if r.Degraded() {
+		return sweepSpec{Tokens: entryTokens, One: 2, Two: 1, StructLen: 4, FullHdr: 1}
+	}
 	if r.Thorough() {
 		return sweepSpec{Tokens: entryTokens, One: 4, Two: 2, Three: true, StructLen: 6, Mixed: true, FullHdr: 2}
 	}
 	return sweepSpec{Tokens: entryTokens, One: 3, Two: 2, Three: false, StructLen: 5, Mixed: true, FullHdr: 2}
 }
 
+// stratum D: word sets that make the optimiser factor common prefixes and suffixes into several groups,
+// placed in concatenation templates
+var c01Words = []string{"bbc", "ddc", "xee", "xff", "ab", "ac", "bc", "abc", "xbc", "b", "abd", "cd"}
+
+func c01StratumD(shard, n int, root *inproc.Root, visit func(stratum string, p Prog)) {
+	d := func(s string) []string { return []string{s} }
+	idx := 0
+	var rec func(start int, cur []string)
+	rec = func(start int, cur []string) {
+		if len(cur) > 0 {
+			var set [][]string
+			for _, w := range cur {
+				set = append(set, d(w))
+			}
+			cat := func(parts ...[][]string) [][]string {
+				var out [][]string
+				for _, p := range parts {
+					out = append(out, p...)
+				}
+				return out
+			}
+			tpls := [][][]string{
+				cat([][]string{d("p"), d("##!=>")}, set, [][]string{d("##!=>"), d("z")}),
+				cat(set, [][]string{d("##!=>"), d("z")}),
+				cat([][]string{d("p"), d("##!=>")}, set, [][]string{d("##!=>")}),
+				cat(set, [][]string{d("##!=< x"), d("p"), d("##!=> x"), d("q"), d("##!=> x")}),
+				cat([][]string{d("##!> assemble"), d("p"), d("##!=>")}, set, [][]string{d("##!=>"), d("z"), d("##!<"), d("w")}),
+			}
+			for _, t := range tpls {
+				if idx++; idx%n == shard {
+					visit("D", Prog{Lines: t})
+				}
+			}
+		}
+		if len(cur) == 4 {
+			return
+		}
+		for i := start; i < len(c01Words); i++ {
+			rec(i+1, append(append([]string{}, cur...), c01Words[i]))
+		}
+	}
+	rec(0, nil)
+}
+
 func C01(r *core.Run) {
-	pc := progCheck{Name: "C01", Spec: c01Spec(r), Tree: c01Tree(), Eval: c01Eval,
+	extra := c01StratumD
+	if r.Degraded() {
+		extra = nil
+	}
+	pc := progCheck{Name: "C01", Spec: c01Spec(r), Tree: c01Tree(), Eval: c01Eval, Extra: extra,
 		ConfSpec: sweepSpec{Tokens: entryTokens, One: 2, StructLen: 3, FullHdr: 1}}
 	res, cleanup := pc.run(r)
 	defer cleanup()
+	if r.Abandon() {
+		return
+	}
 	if r.IsWorker() {
 		return
 	}
@@ -102,7 +156,7 @@ func C01(r *core.Run) {
 	r.Cov["states"] = res.Stats.PStates
 	r.Cov["transitions"] = res.Stats.PTrans
 	r.Cov["inconclusive_pairs"] = res.Stats.Inconclusive
-	r.Cov["rule"] = "strata A (1 entry <= One tokens, 2 entries <= Two tokens, 3 single-token entries) x headers, B (all well-formed bodies of <= StructLen lines over the structural alphabet), C (every rewritten entry at 6 structural positions); states/transitions = product-automaton states/transitions summed over all (output, plain reading) pairs that were not byte-identical; non-trivial = output differs from the naive alternation of the entries"
+	r.Cov["rule"] = "strata A (1 entry <= One tokens, 2 entries <= Two tokens, 3 single-token entries) x headers, B (all well-formed bodies of <= StructLen lines over the structural alphabet), C (every rewritten entry at 6 structural positions), D (every set of <= 4 of 12 words with shared prefixes/suffixes in 5 concatenation templates); states/transitions = product-automaton states/transitions summed over all (output, plain reading) pairs that were not byte-identical; non-trivial = output differs from the naive alternation of the entries"
 	r.Cov["samples"] = []any{
 		Prog{Flags: "is", Prefix: "[xy]+", Suffix: `\b`, Lines: [][]string{{"a", "|", "b"}, {"[", "a-c", "]"}}}.Text(),
 		Prog{Lines: tokLines([]string{"##!> assemble", "a", "##!=>", "b|c", "##!<", "ab"})}.Text(),
